@@ -198,6 +198,9 @@ def run_scenario(exe, cat, sc, scratch, idx):
                 r.lines.pop()
             r.error = None
             return r
+        except Exception as ex:     # a socket or HTTP error while driving the process: this attempt does not count
+            r.error = f"driving the process failed: {type(ex).__name__}: {ex}"
+            continue
         finally:
             if p.poll() is None:
                 p.send_signal(signal.SIGKILL)
@@ -501,7 +504,7 @@ def judge(label, prefix, runs, scs, cat, pid):
                 if md and abs(g.get("timestamp", 0) - md[0].get("system_timestamp", -1)) > 1e-6:
                     violation("timestamp-not-first-arrival", f"scenario {r.name}: record of {x1['hex']} has timestamp {g.get('timestamp')} but its first reception arrived at {md[0].get('system_timestamp')}", {"scenarios": [r.name]})
                 if len(md) == 2:
-                    if md[0].get("serial") == md[1].get("serial"):
+                    if md[0].get("serial") == md[1].get("serial") and len({e["sensor"] for e in sc["events"] if e["ac"] == "x1"}) == 2:
                         violation("reception-receiver", f"scenario {r.name}: the two receptions of {x1['hex']} came from two receivers but are both attributed to {md[0].get('serial')}", {"scenarios": [r.name]})
                     if md[0].get("system_timestamp", 0) > md[1].get("system_timestamp", 0):
                         violation("arrival-order", f"scenario {r.name}: the receptions of {x1['hex']} are not listed in arrival order: {[m.get('system_timestamp') for m in md]}", {"scenarios": [r.name]})
